@@ -178,7 +178,7 @@ def _c14_nontrivial(docs):
 
 def _gen_c16(rng, max_stages):
     """base configs, then stages using !append / !extend / !prev at existing and missing, list and non-list paths"""
-    gb = S.Gen(rng, keys=("a", "b", "c"), atoms=(1, 2, 3, "x"), tags=(), max_depth=rng.choice([2, 3]), max_width=3, p_tag=0.0,
+    gb = S.Gen(rng, keys=("a", "b", "c", "a.b", "x-y"), atoms=(1, 2, 3, "x"), tags=(), max_depth=rng.choice([2, 3]), max_width=3, p_tag=0.0,
                p_empty=0.1, p_list=0.45)
     n = rng.randint(2, max_stages)
     docs = [gb.doc()]
@@ -196,8 +196,9 @@ def _gen_c16(rng, max_stages):
             if op in ("append", "extend"):
                 val = S.SD(op, None, [[S.ikey(i), S.leaf(rng.choice([7, 8, 9]))] for i in range(rng.randint(0, 2))], form="tag")
             elif op == "prev":
-                if allp and rng.random() < 0.85:
-                    q, _ = rng.choice(allp)
+                idp = [(pp, nn) for pp, nn in allp if all(x.isidentifier() for x in pp)]
+                if idp and rng.random() < 0.85:
+                    q, _ = rng.choice(idp)
                 else:
                     q = ("zz",)
                 if q in used_prev:
@@ -336,8 +337,8 @@ BUILDER = {
     },
     "C16": {
         "invariants": ["Inv_C16"],
-        "exh": {"quick": [("C16_DocsQ", 1, 2, "C16_RangeQ"), ("C16_Docs3", 1, 1)],
-                "thorough": [("C16_Docs", 1, 2, "C16_Range"), ("C16_Docs3", 1, 3)]},
+        "exh": {"quick": [("C16_DocsQ", 1, 2, "C16_RangeQ"), ("C16_Docs3", 1, 1), ("C16_DocsDot", 2, 2, "C16_RangeDot")],
+                "thorough": [("C16_Docs", 1, 2, "C16_Range"), ("C16_Docs3", 1, 3), ("C16_DocsDot", 2, 3, "C16_RangeDot")]},
         "mutations": [{"mutation": "PrevCopies", "docs": "C16_DocsQ", "range": "C16_RangeQ", "stages": (2, 2), "expect": ["Inv_C16"]},
                       {"mutation": "AppendPrepends", "docs": "C16_DocsQ", "range": "C16_RangeQ", "stages": (2, 2), "expect": ["Inv_C16"]}],
         "gen": _gen_c16, "random": {"quick": 1500, "thorough": 30000}, "max_stages": 4,
